@@ -11,10 +11,13 @@ FX = 65536
 def _fresh_state(coordinates, demands, num_nodes, max_capacity, key):
     import jax.numpy as jnp
 
+    from harness import inject
     from jumanji.environments.routing.cvrp.constants import DEPOT_IDX
-    from jumanji.environments.routing.cvrp.types import State
+    from jumanji.environments.routing.cvrp.generator import UniformGenerator
 
-    return State(
+    tpl = UniformGenerator(num_nodes=num_nodes, max_capacity=max(max_capacity, 2), max_demand=2)(key)    # the library's own State
+    return inject.state_like(
+        tpl,
         coordinates=coordinates,
         demands=demands.at[DEPOT_IDX].set(0),
         position=jnp.array(DEPOT_IDX, jnp.int32),
